@@ -638,6 +638,12 @@ CommonChecks == <<
         (TaskOf(Post, id).resp = "" /\ TaskOf(Post, id).code = 1 /\ Call.kind \notin {"kill", "killqueue"}) =>
           \A o \in Ops(S) : o.task = id => o \in DueOps,
       "C03:task-cancelled-while-a-client-is-still-attached">>,
+    \* "a worker-created queue without workers is removed after its timeout,
+    \* failing what it still holds"
+    <<\A qi \in DueQueues : \A t \in Tasks(S) :
+        (t.stage = "Q" /\ Len(t.ops) > 0 /\ HasOp(S, t.ops[1]) /\ TaskQueueIdx(S, t) = qi) =>
+          (HasTask(Post, t.id) => TaskOf(Post, t.id).stage = "C"),
+      "C06:queue-removed-without-failing-the-tasks-it-held">>,
     <<\A id \in NewlyAssigned : ~PostWorker(id)[2].drained /\ ~PostWorker(id)[2].terminating,
       "C05:task-assigned-to-drained-or-terminating-worker">>,
     <<\A id \in NewlyAssigned :
